@@ -7,13 +7,14 @@
      mitmproxy/addons/next_layer.py, tlsconfig.py, proxy/layers/modes.py (which HttpLayer mode a client ends up in)
 
    The client connection is in one proxy mode; the client performs up to MaxSteps steps:
-     explicit proxies (regular, upstream_http, upstream_https):  Plain(h)  GET http://h/..     AbsHttps(h)  GET https://h/..
+     explicit proxies (regular, upstream_http, upstream_https):  Plain(h, p)  GET http://h:p/..   AbsHttps(h, p)  GET https://h:p/..
+                                              (p in Ports: the same host:port is asked for with both schemes)
                                               Connect(h, inner)  CONNECT h, then (inner = "tls") a TLS handshake
                                               Inner              a request inside the CONNECT tunnel
      other modes (transparent, socks5, reverse_http, reverse_https):  Plain(1) / StartTls, Inner
    Every step emits the request heads the upstream peers will read (CONNECT heads included), in order.          *)
 EXTENDS Mon_UpstreamAuth, TLC
-CONSTANTS Modes, MaxSteps, Hosts
+CONSTANTS Modes, MaxSteps, Hosts, Ports
 VARIABLES mode, auth, eager, phase, host, opened, steps, mon, obs
 vars == <<mode, auth, eager, phase, host, opened, steps, mon, obs>>
 
@@ -57,18 +58,19 @@ Heads(h, x, outerLayer, key) ==
 
 Step == steps' = steps + 1 /\ UNCHANGED <<mode, auth, eager>>
 
-Plain(h) ==
-  /\ Live /\ (IF Explicit THEN phase = "fresh" ELSE phase \in {"fresh", "plain"} /\ h = 1)
-  /\ Emit(Heads(h, FALSE, TRUE, <<h, FALSE>>))
-  /\ opened' = opened \cup {<<h, FALSE>>}
+\* connection_spec_matches compares address (host, port), tls, via: a pooled connection is the triple <<h, p, tls>>
+Plain(h, p) ==
+  /\ Live /\ (IF Explicit THEN phase = "fresh" ELSE phase \in {"fresh", "plain"} /\ h = 1 /\ p = 80)
+  /\ Emit(Heads(h, FALSE, TRUE, <<h, p, FALSE>>))
+  /\ opened' = opened \cup {<<h, p, FALSE>>}
   /\ phase' = IF Explicit THEN phase ELSE "plain"
   /\ host' = IF Explicit THEN host ELSE 1
   /\ Step
 
-AbsHttps(h) ==
+AbsHttps(h, p) ==
   /\ Live /\ Explicit /\ phase = "fresh"
-  /\ Emit(Heads(h, TRUE, TRUE, <<h, TRUE>>))
-  /\ opened' = opened \cup {<<h, TRUE>>}
+  /\ Emit(Heads(h, TRUE, TRUE, <<h, p, TRUE>>))
+  /\ opened' = opened \cup {<<h, p, TRUE>>}
   /\ UNCHANGED <<phase, host>> /\ Step
 
 \* CONNECT h (answered by mitmproxy itself), then the client either starts TLS with mitmproxy or speaks plain HTTP.
@@ -80,7 +82,7 @@ Connect(h, inner) ==
   /\ phase' = IF inner = "tls" THEN "tun_tls" ELSE "tun_plain"
   /\ host' = h
   /\ IF Up /\ eager /\ inner = "tls"
-       THEN Emit(<<ConnectHead>>) /\ opened' = {<<h, TRUE>>}
+       THEN Emit(<<ConnectHead>>) /\ opened' = {<<h, 443, TRUE>>}
        ELSE Emit(<<>>) /\ opened' = {}
   /\ Step
 
@@ -90,13 +92,14 @@ StartTls ==
 
 Inner ==
   /\ Live /\ phase \in {"tun_tls", "tun_plain", "tls"}
-  /\ LET x == phase \in {"tun_tls", "tls"} IN
-     /\ Emit(Heads(host, x, FALSE, <<host, x>>))
-     /\ opened' = opened \cup {<<host, x>>}
+  /\ LET x == phase \in {"tun_tls", "tls"}
+         key == <<host, IF x THEN 443 ELSE 80, x>> IN
+     /\ Emit(Heads(host, x, FALSE, key))
+     /\ opened' = opened \cup {key}
   /\ UNCHANGED <<phase, host>> /\ Step
 
-Next == \/ \E h \in Hosts : Plain(h)
-        \/ \E h \in Hosts : AbsHttps(h)
+Next == \/ \E h \in Hosts, p \in Ports : Plain(h, p)
+        \/ \E h \in Hosts, p \in Ports : AbsHttps(h, p)
         \/ \E h \in Hosts, inner \in {"tls", "plain"} : Connect(h, inner)
         \/ StartTls
         \/ Inner
